@@ -183,7 +183,8 @@ func readOpen(r io.Reader) (*openResult, error) {
 	if hdr.Type != 1 {
 		return nil, fmt.Errorf("message type is not OPEN, got %d, want 1", hdr.Type)
 	}
-	if hdr.Len < 37 {
+	// An OPEN without optional parameters is 29 bytes long (RFC 4271 section 4.2).
+	if hdr.Len < 29 {
 		return nil, fmt.Errorf("message length %d too small to be OPEN", hdr.Len)
 	}
 
